@@ -1,122 +1,14 @@
-import SaModel.Data.Arr
-import SaModel.Data.SVal
+import SaModel.Data.DVal
 /-
 Vocabulary of the reader model (serde_arrow/src/internal/deserialization/*):
 
-* `DVal`   — what a visitor is handed: the self-describing value `deserialize_any` presents (integers keep the
-             width of the `visit_*` call, strings / byte strings keep how they were handed over: borrowed from
-             the array, transient, owned) and, for typed reads, the value of the requested Rust type rendered in
-             the same shape (struct ⇒ `map` in target field order, tuple ⇒ `seq`, enum ⇒ `enum name payload`).
-* `Target` — description of the requested Rust type: exactly the shapes `harness/src/dynde.rs` drives
-             (std impls and what `#[derive(Deserialize)]` generates).
+* `DVal`, `Target` — what a visitor is handed / the requested Rust type: `Data/DVal.lean` (shared with the specification
+             `Spec/Present.lean`; same namespace `SaModel.Read`).
 * `Fixes`  — which of the `fix:` commits are applied; `Fixes.all` is the code that exists, `Fixes.pinned`
              the pinned tree.
 -/
 namespace SaModel.Read
 open SaModel
-
-/-- how a string / byte string reached the visitor -/
-inductive Own where
-  | borrowed    -- visit_borrowed_str / visit_borrowed_bytes (points into the array buffers)
-  | transient   -- visit_str / visit_bytes
-  | owned       -- visit_string / visit_byte_buf, or an owned `String` / `Vec<u8>` result
-deriving Repr, BEq, DecidableEq, Inhabited
-
-mutual
-inductive DVal where
-  | none | unit | ignored
-  | some (v : DVal)
-  | bool (b : Bool)
-  | int (ty : IntTy) (v : Int)
-  | f32 (bits : Int) | f64 (bits : Int)
-  | char (c : Nat)
-  | str (own : Own) (utf8 : Bytes)
-  | bytes (own : Own) (b : Bytes)
-  | seq (items : DVals)
-  | map (entries : DEntries)
-  | enum (key : DVal) (payload : DVal)
-deriving Repr, BEq, DecidableEq
-inductive DVals where
-  | nil
-  | cons (v : DVal) (rest : DVals)
-deriving Repr, BEq, DecidableEq
-inductive DEntries where
-  | nil
-  | cons (k : DVal) (v : DVal) (rest : DEntries)
-deriving Repr, BEq, DecidableEq
-end
-
-instance : Inhabited DVal := ⟨.none⟩
-
-def DVals.ofList : List DVal → DVals
-  | [] => .nil
-  | v :: r => .cons v (DVals.ofList r)
-
-def DVals.toList : DVals → List DVal
-  | .nil => []
-  | .cons v r => v :: r.toList
-
-def DEntries.ofList : List (DVal × DVal) → DEntries
-  | [] => .nil
-  | (k, v) :: r => .cons k v (DEntries.ofList r)
-
-def DEntries.toList : DEntries → List (DVal × DVal)
-  | .nil => []
-  | .cons k v r => (k, v) :: r.toList
-
-mutual
-inductive Target where
-  | any | ignored | unit | unitStruct
-  | bool | int (ty : IntTy) | f32 | f64 | char
-  | string                       -- `String`
-  | str                          -- `&'de str`
-  | bytes                        -- `&'de [u8]`
-  | byteBuf                      -- serde_bytes::ByteBuf-style owned buffer (deserialize_byte_buf; accepts bytes, strings, seq of u8)
-  | option (t : Target)
-  | newtype (t : Target)         -- `struct N(T);`
-  | seq (t : Target)             -- `Vec<T>`
-  | tuple (ts : Targets)         -- `(T0, T1, …)`
-  | tupleStruct (ts : Targets)   -- `struct P(T0, T1, …);`
-  | map (k : Target) (v : Target)
-  | struct (fs : TFields)        -- `struct S { name0: T0, … }`
-  | enum (byIndex : Bool) (vs : TVariants)
-inductive Targets where
-  | nil
-  | cons (t : Target) (rest : Targets)
-inductive TFields where
-  | nil
-  | cons (name : String) (t : Target) (rest : TFields)
-inductive TVariants where
-  | nil
-  | cons (name : String) (k : VKind) (rest : TVariants)
-inductive VKind where
-  | unit
-  | newtype (t : Target)
-  | tuple (ts : Targets)
-  | struct (fs : TFields)
-end
-
-instance : Inhabited Target := ⟨.any⟩
-
-def Targets.ofList : List Target → Targets
-  | [] => .nil
-  | t :: r => .cons t (Targets.ofList r)
-
-def TFields.ofList : List (String × Target) → TFields
-  | [] => .nil
-  | (n, t) :: r => .cons n t (TFields.ofList r)
-
-def TVariants.ofList : List (String × VKind) → TVariants
-  | [] => .nil
-  | (n, k) :: r => .cons n k (TVariants.ofList r)
-
-def Targets.length : Targets → Nat
-  | .nil => 0
-  | .cons _ r => r.length + 1
-
-def Target.isOption : Target → Bool
-  | .option _ => true
-  | _ => false
 
 /-- which `fix:` commits are applied (hashes: /repo main) -/
 structure Fixes where
@@ -135,9 +27,6 @@ def Fixes.pinned : Fixes := ⟨false, false, false, false, false, false, false, 
 
 def usizeMax : Nat := 18446744073709551615
 def i64Max : Int := 9223372036854775807
-
-/-- the UTF-8 bytes of a Rust `String` taken from the schema (field / variant names) -/
-def strBytes (s : String) : Bytes := s.toUTF8.toList
 
 /-! ### `std::str::from_utf8`: well-formed UTF-8 (Unicode table 3-7) -/
 
@@ -166,40 +55,5 @@ def validUtf8 : Bytes → Bool
          else isCont b1) && isCont b2 && isCont b3 && validUtf8 r
       | _ => false
     else false
-
-/-! ### exact float widenings (`half::f16::to_f32`, `f32 as f64`), on bit patterns -/
-
-/-- `f16::to_f32` -/
-def f16ToF32 (h : Int) : Int :=
-  let h := h.toNat % 65536
-  let sign := h / 32768
-  let exp := (h / 1024) % 32
-  let man := h % 1024
-  let s := sign * 2147483648
-  if exp == 31 then
-    if man == 0 then Int.ofNat (s + 0x7F800000) else Int.ofNat (s + 0x7FC00000 + man * 8192 % 0x400000)
-  else if exp == 0 then
-    if man == 0 then Int.ofNat s
-    else
-      let e := Nat.log2 man
-      Int.ofNat (s + (e + 103) * 8388608 + (man - 2 ^ e) * 2 ^ (23 - e))
-  else Int.ofNat (s + (exp + 112) * 8388608 + man * 8192)
-
-/-- `f32 as f64` -/
-def f32ToF64 (f : Int) : Int :=
-  let f := f.toNat % 4294967296
-  let sign := f / 2147483648
-  let exp := (f / 8388608) % 256
-  let man := f % 8388608
-  let s := sign * 9223372036854775808
-  if exp == 255 then
-    if man == 0 then Int.ofNat (s + 0x7FF0000000000000)
-    else Int.ofNat (s + 0x7FF8000000000000 + man * 536870912 % 0x8000000000000)
-  else if exp == 0 then
-    if man == 0 then Int.ofNat s
-    else
-      let e := Nat.log2 man
-      Int.ofNat (s + (e + 874) * 4503599627370496 + (man - 2 ^ e) * 2 ^ (52 - e))
-  else Int.ofNat (s + (exp + 896) * 4503599627370496 + man * 536870912)
 
 end SaModel.Read
